@@ -112,6 +112,7 @@ def check(ctx):
     c06.panic_rule(ctx, 'R03.3', entries=['TemplateProgram::instantiate', 'CompiledProgram::commit'], what='instantiate/commit')
     from . import c12
     c12.r_instantiate_gate(ctx, 'R03.5')
+    c12.r_argument_scopes(ctx)      # the rest of the discharge of get_argument's expect: every scope holds the checked arguments
     if ctx.tier == 'thorough':
         from .. import witness
         witness.run(ctx, 'R03.W', ['W2'])
